@@ -33,6 +33,9 @@ type State struct {
 	// evaluated it has this value" - an oracle for the whole run, never
 	// invalidated (shared, not copied).
 	pin map[string]bool
+	// phiSrc: key of the operand that flowed into a phi on this path (for
+	// rules that ask "which value reached this use"); not used for facts.
+	phiSrc map[string]string
 }
 
 // fact looks a key up in the pinned assumptions, then in the path facts.
@@ -45,11 +48,14 @@ func (s *State) fact(k string) (bool, bool) {
 }
 
 func newState() *State {
-	return &State{Facts: map[string]bool{}, alias: map[string]string{}, mem: map[string]string{}}
+	return &State{Facts: map[string]bool{}, alias: map[string]string{}, mem: map[string]string{}, phiSrc: map[string]string{}}
 }
 
 func (s *State) clone() *State {
-	n := &State{Facts: make(map[string]bool, len(s.Facts)), alias: make(map[string]string, len(s.alias)), mem: make(map[string]string, len(s.mem)), pin: s.pin}
+	n := &State{Facts: make(map[string]bool, len(s.Facts)), alias: make(map[string]string, len(s.alias)), mem: make(map[string]string, len(s.mem)), pin: s.pin, phiSrc: make(map[string]string, len(s.phiSrc))}
+	for k, v := range s.phiSrc {
+		n.phiSrc[k] = v
+	}
 	for k, v := range s.Facts {
 		n.Facts[k] = v
 	}
@@ -76,6 +82,9 @@ func (s *State) hash() string {
 	}
 	for k, v := range s.mem {
 		parts = append(parts, "M"+k+"="+v)
+	}
+	for k, v := range s.phiSrc {
+		parts = append(parts, "P"+k+"="+v)
 	}
 	sort.Strings(parts)
 	return strings.Join(parts, ";")
@@ -138,6 +147,22 @@ func (x *Explorer) KeyAtEntry(v ssa.Value) string {
 func (x *Explorer) StructKeyAtEntry(v ssa.Value) string {
 	x.init()
 	return x.render(v, newState(), 0)
+}
+
+// SourceKey is KeyOf, except that for a phi it returns the key of the operand
+// that flowed into it on this path.
+func (x *Explorer) SourceKey(v ssa.Value, st *State) string {
+	for i := 0; i < 4; i++ {
+		p, ok := v.(*ssa.Phi)
+		if !ok {
+			break
+		}
+		if k, ok := st.phiSrc[p.Name()]; ok {
+			return k
+		}
+		break
+	}
+	return x.key(v, st)
 }
 
 // KeyOf renders v in the given state.
@@ -213,6 +238,10 @@ func (x *Explorer) key(v ssa.Value, st *State) string {
 	}
 	if a, ok := st.alias[v.Name()]; ok {
 		return a
+	}
+	switch v.(type) {
+	case *ssa.Alloc, *ssa.MakeClosure, *ssa.MakeMap, *ssa.MakeChan, *ssa.MakeSlice:
+		return "new:" + v.Name()
 	}
 	return v.Name()
 }
@@ -649,7 +678,7 @@ func splitEq(k string) (a, b string, ok bool) {
 }
 
 func nonNilKey(k string, st *State) bool {
-	if strings.HasPrefix(k, "mi(") || strings.HasPrefix(k, "nonnil:") || strings.HasPrefix(k, "fn:") {
+	if strings.HasPrefix(k, "mi(") || strings.HasPrefix(k, "nonnil:") || strings.HasPrefix(k, "fn:") || strings.HasPrefix(k, "new:") {
 		return true
 	}
 	if strings.HasPrefix(k, "wrap(") && strings.HasSuffix(k, ")") {
@@ -807,10 +836,10 @@ func (x *Explorer) Run() []Hit {
 				// error results keep their nil-ness (checked separately by
 				// DeferNilness).
 				for a := range st.mem {
-					if !strings.HasPrefix(a, "t") {
+					if !strings.HasPrefix(a, "new:") {
 						continue
 					}
-					if al := x.allocByName(a); al != nil && x.census.CellStoredByClosure(al) && !isErrorType(al.Type().(*types.Pointer).Elem()) {
+					if al := x.allocByName(a[4:]); al != nil && x.census.CellStoredByClosure(al) && !isErrorType(al.Type().(*types.Pointer).Elem()) {
 						delete(st.mem, a)
 					}
 				}
@@ -957,6 +986,11 @@ func (x *Explorer) enterBlock(b, pred *ssa.BasicBlock, st *State) {
 			delete(st.mem, a)
 		}
 	}
+	for r := range st.phiSrc {
+		if db, ok := x.regBlock[r]; ok && db != b && !db.Dominates(b) {
+			delete(st.phiSrc, r)
+		}
+	}
 	// 2. registers defined in this block get fresh meaning
 	defs := map[string]bool{}
 	for _, in := range b.Instrs {
@@ -983,8 +1017,10 @@ func (x *Explorer) enterBlock(b, pred *ssa.BasicBlock, st *State) {
 	}
 	for _, u := range upds {
 		if !u.ok {
+			delete(st.phiSrc, u.name)
 			continue
 		}
+		st.phiSrc[u.name] = u.key
 		if u.facts != nil {
 			for fk, fv := range u.facts {
 				st.Facts[fk] = fv
@@ -1036,7 +1072,7 @@ func (x *Explorer) doStore(s *ssa.Store, st *State) {
 			}
 			continue
 		}
-		if !strings.HasPrefix(a, "t") && !strings.HasPrefix(a, "fv:") {
+		if !strings.HasPrefix(a, "new:") && !strings.HasPrefix(a, "fv:") {
 			delete(st.mem, a)
 		}
 	}
@@ -1051,8 +1087,8 @@ func (x *Explorer) invalidateOnCall(c ssa.CallInstruction, st *State) {
 	st.dropIf(func(k string) bool { return strings.Contains(k, "*") })
 	for a := range st.mem {
 		keep := false
-		if strings.HasPrefix(a, "t") {
-			if al := x.allocByName(a); al != nil && !x.census.CellStoredByClosure(al) {
+		if strings.HasPrefix(a, "new:") {
+			if al := x.allocByName(a[4:]); al != nil && !x.census.CellStoredByClosure(al) {
 				keep = true
 			} else if al != nil && isErrorType(al.Type().(*types.Pointer).Elem()) {
 				keep = true
@@ -1087,6 +1123,16 @@ func (x *Explorer) branch(i *ssa.If, b *ssa.BasicBlock, st *State, trace []int, 
 		if record {
 			ns = st.clone()
 			ns.Facts[base] = truth != neg
+			// (call#k == nil) learnt true for the error result of a module
+			// function whose other result is non-nil on success
+			if truth != neg && strings.HasSuffix(base, "==nil)") && strings.HasPrefix(base, "(t") {
+				if i := strings.Index(base, "#"); i > 0 {
+					reg := base[1:i]
+					if x.P.nonNilOnSuccessReg(x.Fn, reg) {
+						ns.Facts["("+reg+"#0==nil)"] = false
+					}
+				}
+			}
 		} else if !known {
 			ns = st.clone()
 		}
@@ -1151,4 +1197,72 @@ func BlockTrace(fn *ssa.Function, tr []int) string {
 		}
 	}
 	return sb.String()
+}
+
+// nonNilOnSuccessReg: register reg of fn is a call to a module function that
+// returns (T, error) with T provably non-nil on every success return.
+func (p *Prog) nonNilOnSuccessReg(fn *ssa.Function, reg string) bool {
+	key := fn
+	m, ok := nnsRegCache[key]
+	if !ok {
+		m = map[string]bool{}
+		Instrs(fn, func(in ssa.Instruction) {
+			call, ok := in.(*ssa.Call)
+			if !ok {
+				return
+			}
+			callee := call.Call.StaticCallee()
+			if callee == nil || !p.InModule(callee) {
+				return
+			}
+			if p.NonNilOnSuccess(callee) {
+				m[call.Name()] = true
+			}
+		})
+		nnsRegCache[key] = m
+	}
+	return m[reg]
+}
+
+var nnsRegCache = map[*ssa.Function]map[string]bool{}
+var nnsCache = map[*ssa.Function]int{}
+
+// NonNilOnSuccess: fn returns (T, error), T a pointer/interface/map, and on
+// every return whose error is not provably non-nil, result 0 is provably
+// non-nil.
+func (p *Prog) NonNilOnSuccess(fn *ssa.Function) bool {
+	if v, ok := nnsCache[fn]; ok {
+		return v == 1
+	}
+	nnsCache[fn] = 2 // in progress: pessimistic
+	res := fn.Signature.Results()
+	if res.Len() != 2 || !isErrorType(res.At(1).Type()) || len(fn.Blocks) == 0 {
+		return false
+	}
+	switch res.At(0).Type().Underlying().(type) {
+	case *types.Pointer, *types.Interface, *types.Map, *types.Slice, *types.Chan, *types.Signature:
+	default:
+		return false
+	}
+	x := &Explorer{P: p, Fn: fn, MaxStates: 20000}
+	bad := false
+	x.Target = func(in ssa.Instruction, st *State) bool {
+		r, ok := in.(*ssa.Return)
+		if !ok || len(r.Results) != 2 {
+			return false
+		}
+		if x.NonNil(r.Results[1], st) {
+			return false
+		}
+		if !x.NonNil(r.Results[0], st) {
+			bad = true
+		}
+		return false
+	}
+	x.Run()
+	if bad || x.Exhausted {
+		return false
+	}
+	nnsCache[fn] = 1
+	return true
 }
